@@ -521,7 +521,40 @@ def r10(ctx):
         raise AnalysisBroken('C19.R10: search for the minus sign not found in parseInt')
 
 
+def r11(ctx):
+    ctx.rule('C19.R11', 'a poll priority survives dump and reload: Message::dumpField writes the priority digit behind the type '
+             'under a condition that, evaluated for the priorities 0..9, holds exactly for 1..9 (the loader reads "no digit" '
+             'as priority 0)', minimum=1)
+    import tinyeval
+    fb = ctx.fb
+    fn = fb.fn('ebusd::Message::dumpField')
+    ctx.touch(fn)
+    n = 0
+    for c in fn.all('CXXOperatorCallExpr'):
+        v = fn.nodes[c]
+        if v.get('op') != '<<' or len(v.get('args', [])) != 2 or 'this.m_pollPriority' not in fn.key(v['args'][1]):
+            continue
+        conds = _pure_conds(fn, c, lambda x: x.get('this') and x.get('name') == 'm_pollPriority')
+        n += 1
+        if not conds:
+            ctx.ob('C19.R11', fn, c, False, 'poll priority written by dumpField', 'not under a condition on the priority')
+            continue
+        bad = []
+        try:
+            for prio in range(10):
+                m = tinyeval.Machine(fn, {'m_pollPriority': prio}, [])
+                w = all(bool(m.rv(cc)) == t for cc, t in conds)
+                if w != (prio > 0):
+                    bad.append('priority %d is %s' % (prio, 'written' if w else 'not written'))
+        except tinyeval.Unknown as e:
+            raise AnalysisBroken('C19.R11: condition not evaluable (%s)' % e)
+        ctx.ob('C19.R11', fn, c, not bad, 'poll priority written by dumpField', '; '.join(bad) or 'written exactly for 1..9')
+    if n < 1:
+        raise AnalysisBroken('C19.R11: the priority is not written in Message::dumpField')
+
+
 def run(ctx):
+    r11(ctx)
     r10(ctx)
     r9(ctx)
     multiline_rule(ctx, 'C19.R8')
